@@ -210,8 +210,10 @@ options_get_info(options_t     *options,     /* global options */
                 *comp_type = obj->comp.type;
                 *info      = obj->comp.info;
                 *szip_mode = obj->comp.szip_mode;
-                /* check if we have also CHUNK info  */
-                if (obj->chunk.rank > 0) {
+                /* check if we have also CHUNK info, from the options or because the
+                   object is chunked in the input and stays so */
+                if (obj->chunk.rank > 0 || (*chunk_flags == HDF_CHUNK) ||
+                    (*chunk_flags == (HDF_CHUNK | HDF_COMP))) {
                     *chunk_flags              = HDF_CHUNK | HDF_COMP;
                     chunk_def->comp.comp_type = *comp_type;
                     switch (*comp_type) {
